@@ -1,3 +1,63 @@
 import VpnCloud.Model.Node
+import VpnCloud.Proofs.Lemmas.NodeLemmasAB
+/-
+  C15: timing parameters.  The announcement interval and the default keepalive (both regenerated from
+  the Rust source) never panic and stay below the peer timeout; the reconnect back-off is bounded by
+  one hour and never drops an entry.
+-/
 namespace VpnCloud.Proofs.C15
+open VpnCloud VpnCloud.Node
+open VpnCloud.Proofs.NodeLemmasAB
+
+-- the generated expressions change with the Rust source: all operator definitions are listed, whether the current expression uses them or not
+set_option linter.unusedSimpArgs false
+
+/-- evaluates a generated interval expression (whatever operators it currently uses), splits the panic checks that remain
+    (`oCheckedSub`, `oDiv` by a non-literal) and decides the resulting linear arithmetic with `min` / `max` / division by literals -/
+macro "interval_arith" : tactic => `(tactic|
+  (simp [Generated.housekeepInterval, Generated.defaultKeepalive, Generated.oMin, Generated.oMax, Generated.oSatSub,
+     Generated.oDiv, Generated.oAdd, Generated.oMul, Generated.oCheckedSub]
+   all_goals (repeat' split)
+   all_goals (try simp)
+   all_goals omega))
+
+/-- **interval_safe**: for every own setting and every minimum of the advertised peer timeouts the announcement delay is computed without panic and is at most
+    one second or strictly shorter than that minimum -/
+theorem interval_safe (updateFreq minPeerTimeout : Nat) :
+    ∃ d, Generated.housekeepInterval updateFreq minPeerTimeout = some d ∧ (d ≤ 1 ∨ d < minPeerTimeout) := by
+  interval_arith
+
+/-- the default keepalive never panics and is at most one second or shorter than the node's own peer timeout -/
+theorem keepalive_default_safe (peerTimeout : Nat) :
+    ∃ d, Generated.defaultKeepalive peerTimeout = some d ∧ (d ≤ 1 ∨ d < peerTimeout) := by
+  interval_arith
+
+/-- **backoff_bounded**: the reconnect interval never exceeds one hour and entries are never dropped (configured peers are retried forever) -/
+theorem backoff_bounded (env : CryptoEnv) (o : Oracle) (c : Ctx) (now : Int)
+    (h : ∀ e ∈ c.node.reconnect, e.timeout ≤ Generated.MAX_RECONNECT_INTERVAL) :
+    (reconnectToPeers env o c now).node.reconnect.length = c.node.reconnect.length ∧
+    ∀ e ∈ (reconnectToPeers env o c now).node.reconnect, e.timeout ≤ Generated.MAX_RECONNECT_INTERVAL ∧ (e.next ≤ now + Generated.MAX_RECONNECT_INTERVAL ∨ ∃ e0 ∈ c.node.reconnect, e0.next = e.next) := by
+  have hrc := foldl_connect_reconnect env o now c.node.reconnect c
+  unfold reconnectToPeers
+  simp only [hrc, List.length_map, List.mem_map, true_and]
+  rintro e ⟨e0, he0, rfl⟩
+  have h0 := h e0 he0
+  have h1 : 1 ≤ Generated.MAX_RECONNECT_INTERVAL := by decide
+  generalize Generated.MAX_RECONNECT_INTERVAL = M at h0 h1 ⊢
+  have clamp : ∀ t : Nat, (if t > M then M else t) ≤ M := by intro t; split <;> omega
+  split
+  · -- a resolved address is a peer: the entry is reset
+    split
+    · exact ⟨h1, Or.inl (by show now + ((1 : Nat) : Int) ≤ now + (M : Int); omega)⟩
+    · dsimp only
+      generalize (if 0 + 1 > Generated.RECONNECT_TRIES then ((0 : Nat), 1 * 2) else (0 + 1, 1)).snd = t
+      have := clamp t
+      exact ⟨this, Or.inl (by omega)⟩
+  · split
+    · exact ⟨h0, Or.inr ⟨e0, he0, rfl⟩⟩
+    · dsimp only
+      generalize (if e0.tries + 1 > Generated.RECONNECT_TRIES then ((0 : Nat), e0.timeout * 2) else (e0.tries + 1, e0.timeout)).snd = t
+      have := clamp t
+      exact ⟨this, Or.inl (by omega)⟩
+
 end VpnCloud.Proofs.C15
